@@ -11,6 +11,7 @@ package main
 
 import (
 	"fmt"
+	"os"
 	"reflect"
 	"sort"
 	"time"
@@ -114,16 +115,32 @@ func judge(c gcCase) (string, string) {
 
 func main() {
 	a := vlib.ParseArgs()
-	out := vlib.NewOut(a, "From V Require Import Corr.Run_C10.", "gcase", 400)
+	if a.Replay != "" {
+		var v struct {
+			Case any `json:"case"`
+		}
+		vlib.ReadJSON(a.Replay, &v)
+		if replayHist(v.Case) {
+			os.Exit(1)
+		}
+		return
+	}
+	out := vlib.NewOut(a, "From V Require Import Corr.Run_C10.", "gcase", 250)
 	rng := vlib.NewRand(a.Seed)
-	n := 700
+	n, nh := 500, 250 // single-pass stores, histories with 2-4 passes
 	if a.Thorough() {
-		n = 12000
+		n, nh = 8000, 4000
 	}
 	tuples := [][]string{{"a"}, {"b"}, {"c-d"}, {"e"}, {"f\\"}, {"g"}, {"h"}, {""}}
 	ages := []int64{0, int64(5 * time.Second), int64(60 * time.Second), int64(time.Hour), -int64(time.Hour), int64(24 * time.Hour)}
 	exps := []int64{0, 0, -int64(5 * time.Second), int64(30 * time.Second), int64(10 * time.Minute), int64(2 * time.Hour), 1}
+	hrng := rng.Fork()
+	hi := 0
 	for i := 0; i < n; i++ {
+		for hi*n < i*nh { // histories spread evenly among the single-pass stores
+			runHistory(out, hrng, hi)
+			hi++
+		}
 		now0 := time.Now().UnixNano()
 		ty := vlib.Pick(rng, []string{"int", "int", "float", "str"})
 		kind := vlib.Pick(rng, []string{"counter", "gauge", "timer"})
@@ -132,7 +149,7 @@ func main() {
 		}
 		tuples := tuples
 		nt := 1 + rng.Intn(len(tuples))
-		big := i%50 == 7
+		big := i%40 == 7
 		if big {
 			// many label sets, most of them removed by this one GC pass (limit far
 			// below the population, or most of them expired): the removal loops and
@@ -245,5 +262,8 @@ func main() {
 			out.Violate("listing-inconsistent", pr, map[string]any{"kind": "gc", "case": c})
 		}
 	}
-	out.Flush("random stores: 1..8 label sets (every 50th case 34..73 label sets with a limit of 1..12) with ages {0,5s,60s,1h,-1h,24h}+jitter or all equal, saturating timestamps, expiry marks {0,<0,30s,10m,2h,1ns, threshold +-2s/20s} kept >= 2 s away from the wall-clock threshold, occasional removes, limit 0..n+1; then Store.Gc(); non-trivial = GC removed some but not all entries; distinct by hash of the case", false)
+	for ; hi < nh; hi++ {
+		runHistory(out, hrng, hi)
+	}
+	out.Flush("random stores: 1..8 label sets (every 40th case 34..73 label sets with a limit of 1..12) with ages {0,5s,60s,1h,-1h,24h}+jitter or all equal, saturating timestamps, expiry marks {0,<0,30s,10m,2h,1ns, threshold +-2s/20s} kept >= 2 s away from the wall-clock threshold, occasional removes, limit 0..n+1; then Store.Gc(); non-trivial = GC removed some but not all entries. Histories (hist/...): the same kind of store, then 2..4 times { Store.Gc(); 0..5 more operations on the same metric: updates whose timestamp moves back beyond / forward past the threshold of the datum's mark or by -1h..+1min, new marks (also 0 and negative), removals, look-ups, label sets that are new or were collected before (every 50th history: 34..63 label sets, limit 1..12, 12..41 operations between passes, mostly new label sets) }, half of them followed by a look-up of every label set; marks within 2 s of their threshold at a pass are moved by a recorded operation; non-trivial = a pass after the first removed some but not all entries; distinct by hash of the case", false)
 }
